@@ -593,10 +593,13 @@ theorem api_unquote_contract (U : List UInt8) (h : U ∈ apiTables) (s : Str) :
     unquote_no_stray U hU s, unquote_idempotent U hU hA s, quote_unquote_idempotent U hU hA s,
     upper_commutes_unquote U hU s, fun b hb hsp => unquote_delimiters_table U hU hA b hb hsp s⟩
 
-/-- the delimiters of each component, by name: `@ : / ? # [ ]` for a userinfo item, `/ ? #`
-for a path, `& = #` for a query item stay raw where raw and escaped where escaped -/
+/-- the delimiters of each component, by name (the lists of the table obligations
+`tables_*_delims`): `@ : / ? #` for a userinfo item, `/ ? #` for a path, `& = #` for a query
+item stay raw where raw and escaped where escaped (a fragment has no delimiter of its own;
+`unquote_delimiters_table` covers every further byte of each table, `[ ]` of the userinfo
+table included) -/
 theorem api_delimiters (s : Str) :
-    (∀ d ∈ ['@', ':', '/', '?', '#', '[', ']'],
+    (∀ d ∈ ['@', ':', '/', '?', '#'],
       (tokens (safelyUnquote Gen.Quote.unsafeForAuthItem s)).count (.raw d) = (tokens s).count (.raw d)) ∧
     (∀ d ∈ ['/', '?', '#'],
       (tokens (safelyUnquote Gen.Quote.unsafeForPath s)).count (.raw d) = (tokens s).count (.raw d)) ∧
